@@ -22,14 +22,21 @@ code -> spec: seeded random content trees (hardlink groups, symlinks to files/di
               it fails with EXDEV, emulated in the recorder; Expected links only names on one filesystem) with a
               hardlink group spread over both sides.  Directories may be set-gid with a foreign group and most
               entries are recorded as 0:0, the merging process' own ids (created objects inherit the group of a
-              set-gid parent, so ownership must be set explicitly).  The recorded syscalls are
+              set-gid parent, so ownership must be set explicitly).  Further decorations (about 30 % each, freely
+              combined): pre-existing parent directories that are NOT in the cset with permissions narrower than
+              0750 and new / replacing entries below them (Frame covers the directory); pre-existing
+              `<entry>#new` temporaries of every kind (other content, hard link to foreign data, symlink, rarely
+              a directory) next to replaced entries, in particular next to hardlink-group members (installed by
+              link); and roots that are what an interrupted earlier run of the same merge left behind (cut at a
+              random mutation, also after half a write).  The recorded syscalls are
               replayed through FsModel by Merge_Trace; judged there: model == real snapshot
               (FinalState/FinalLinks), real snapshot vs Merge!Expected(old, cset, offset) one clause per
               attribute (Type Data Target Mtime Mode Owner Hardlink DirPermsKept Frame, Outcome_*).
 Carve-outs (Expected = "unspecified", counted, not judged): a directory entry whose parent exists
 neither in the cset nor on disk; parents reached through dangling symlinks / non-directories; a symlink
 over a directory whose target is outside the root or itself a symlink; two entries resolving to one
-object; offset whose parent is missing.  Not determined by the property and therefore wildcards: mode /
+object; offset whose parent is missing; the temporary name `<entry>#new` next to a replaced object is taken by a
+directory (never a leftover of a merge).  Not determined by the property and therefore wildcards: mode /
 owner of created missing parents and of the offset directory, owner of pre-existing directories, mode
 of symlinks (not settable on Linux), mtime of directories populated afterwards, a pre-existing
 `<entry>#new` sibling (temporary name reserved by the merge, C19 statement).
@@ -247,6 +254,67 @@ class Deco:
         return members
 
 
+def add_unlisted_parents(r_, cset, old):
+    """Pre-existing parent directories that are NOT part of the contents set, with permissions narrower than
+    what a created missing parent would get (0750), and new / replacing non-directory entries below them:
+    the frame condition covers the directory itself (mode, owner)."""
+    d = Deco(r_, cset, old)
+    for j in range(r_.randint(1, 2)):
+        home = r_.choice(d.homes())
+        P = f"{home}/up{j}" if home else f"up{j}"
+        if P in d.otype or P in d.ctype:
+            continue
+        d.old_dir(P)
+        next(o for o in old if o["path"] == P)["mode"] = r_.choice([0o700, 0o500, 0o711, 0o510, 0o300])
+        members = [e for e in cset if e["type"] == "file" and e["grp"]]
+        for k in range(r_.randint(1, 3)):
+            t = r_.choice(["file", "file", "sym", "fifo", "mate"])
+            name = f"n{k}"
+            if t == "mate" and members:
+                e = d.new_file(P, name, like=members[0])
+            elif t in ("file", "mate"):
+                e = d.new_file(P, name)
+            else:
+                e = dict(path=f"{P}/{name}", type=t, content="", target="t" if t == "sym" else "", grp=0, src="local")
+                e.update(_attrs(r_, [0o644, 0o600]))
+                d.ctype[e["path"]] = t
+            cset.insert(r_.randint(0, len(cset)), e)
+            if r_.random() < 0.3:
+                d.old_file(e["path"], "old-below-unlisted")
+
+
+def add_stale_temps(r_, cset, old):
+    """Pre-existing `<entry>#new` temporaries of every kind (file with other content, hard link to something
+    else, symlink, rarely a directory) next to entries that replace an existing object - in particular next
+    to members of a hardlink group, which are installed by link() rather than by copying."""
+    d = Deco(r_, cset, old)
+    members = d.group(r_.randint(2, 3))
+    others = [e for e in cset if e["type"] != "dir" and not e["grp"] and d.otype.get(e["path"], "file") != "dir"
+              and d.clean_dir(os.path.dirname(e["path"]))]
+    for e in members + r_.sample(others, min(len(others), 2)):
+        if r_.random() < 0.25:
+            continue
+        d.old_dir(os.path.dirname(e["path"]))
+        d.old_file(e["path"], "old-" + e["path"])
+        tmp = e["path"] + "#new"
+        if tmp in d.otype or tmp in d.ctype or d.otype.get(e["path"]) == "dir":
+            continue
+        kind = r_.choice(["file", "file", "hardlink", "hardlink", "sym", "dir" if r_.random() < 0.3 else "file"])
+        if kind == "file":
+            d.old_file(tmp, "STALE-TEMP-" * r_.randint(1, 9))
+        elif kind == "hardlink":
+            keep = f"foreign{len(old)}"
+            d.old_file(keep, "somebody else's data")
+            old.append(dict(path=tmp, type="file", content="", target="", link_to=keep, **_attrs(r_, MODES_F)))
+            d.otype[tmp] = "file"
+        elif kind == "sym":
+            old.append(dict(path=tmp, type="sym", content="", target="stale-target", link_to="", **_attrs(r_, [0o777])))
+            d.otype[tmp] = "sym"
+        else:
+            d.old_dir(tmp)
+    r_.shuffle(cset)
+
+
 def add_retries(r_, cset, old):
     """Decorate a scenario with the tolerated CannotOverwrite retry of merge_contents: symlink entries whose
     location is an existing real directory and whose target is a directory, placed in the middle of the
@@ -311,17 +379,28 @@ def add_mounts(r_, cset, old):
     return [mp]
 
 
-def gen_scenario(r_, size, retry=None, mount=None):
+def gen_scenario(r_, size, retry=None, mount=None, parents=None, stale=None):
     cset = gen_cset(r_, r_.randint(1, size))
     retry = r_.random() < 0.35 if retry is None else retry
     mount = r_.random() < 0.3 if mount is None else mount
-    old = gen_old(r_, cset, benign=retry or mount)
+    parents = r_.random() < 0.3 if parents is None else parents
+    stale = r_.random() < 0.3 if stale is None else stale
+    deco = retry or mount or parents or stale
+    old = gen_old(r_, cset, benign=deco)
     mounts = add_mounts(r_, cset, old) if mount else []
+    if stale:
+        add_stale_temps(r_, cset, old)
+    if parents:
+        add_unlisted_parents(r_, cset, old)
     if retry:
         add_retries(r_, cset, old)
-    return dict(cset=cset, old=old, mounts=mounts,
-                mode=r_.choice(["offset", "offset", "none", "missing"] if not (retry or mount) else ["offset", "none"]),
-                via=r_.choice(["ops", "ops", "engine"]))
+    sc = dict(cset=cset, old=old, mounts=mounts,
+              mode=r_.choice(["offset", "offset", "none", "missing"] if not deco else ["offset", "none"]),
+              via=r_.choice(["ops", "ops", "engine"]))
+    if not mounts and r_.random() < 0.2:
+        # the root is what an earlier, interrupted run of this very merge left behind
+        sc.update(precut=round(r_.random(), 3), prehalf=r_.random() < 0.4)
+    return sc
 
 
 # --------------------------------------------------------------------------- realisation
@@ -329,6 +408,13 @@ class World:
     """One scenario on disk: recorder root R, merge root M = R/m, sources and engine tempdir outside R."""
 
     def __init__(self, base, sc):
+        # decorators of the generator combine freely; one of them may turn an old directory into a symlink or
+        # a file after another one has put old objects below it: such objects cannot exist, drop them
+        nondir = {o["path"] for o in sc["old"] if o["type"] != "dir"}
+        below = [o for o in sc["old"] if any(o["path"].startswith(a + "/") for a in nondir)]
+        if below:
+            gone = {o["path"] for o in below}
+            sc["old"] = [o for o in sc["old"] if o["path"] not in gone and o.get("link_to") not in gone]
         self.sc = sc
         self.base = base
         self.R = os.path.join(base, "R")
@@ -344,8 +430,8 @@ class World:
     def sub(self, s):
         return s.replace("@ROOT@", os.path.realpath(self.M))
 
-    def setup(self, _root=None):
-        """(Re)build the old root."""
+    def setup(self, _root=None, _inner=False):
+        """(Re)build the old root (optionally: as left behind by an interrupted earlier run of the merge)."""
         if os.path.lexists(self.R):
             fsrec._real_rmtree(self.R)
         os.makedirs(self.R)
@@ -354,7 +440,7 @@ class World:
         os.mkdir(self.M)
         os.chmod(self.M, 0o755)
         objs = self.sc["old"]
-        for o in [o for o in objs if o["type"] == "dir"]:
+        for o in sorted((o for o in objs if o["type"] == "dir"), key=lambda o: o["path"].count("/")):  # parents first
             os.mkdir(os.path.join(self.M, o["path"]))
         for o in [o for o in objs if o["type"] != "dir"]:
             p = os.path.join(self.M, o["path"])
@@ -376,6 +462,12 @@ class World:
                 os.chmod(p, o["mode"])
             os.utime(p, (o["mtime"], o["mtime"]), follow_symlinks=False)
         os.utime(self.M, (12345, 12345))
+        if self.sc.get("precut") is not None and not _inner:
+            op = make_op(self)
+            rec, _res, _exc = fsrec.count_mutations(self.R, op)
+            self.setup(_inner=True)
+            if rec.n_mut:
+                fsrec.run_with_cut(self.R, op, 1 + int(self.sc["precut"] * rec.n_mut) % rec.n_mut, half=bool(self.sc.get("prehalf")))
 
     def location(self, e):
         if self.sc["mode"] == "none":
